@@ -394,3 +394,32 @@ SWEEP = ["anyflow/test_builder.cpp",
          "anyflow/test_data.cpp",
          "anyflow/test_dependency.cpp",
          "anyflow/test_processor.cpp"]
+
+
+# name anchors (validated by tools/rename_sweep.py; a vanished name is exit 2, see core.check_anchor_names)
+ANCHORS = {
+    'activate': ['^babylon::anyflow::GraphData(<|$)', '^babylon::anyflow::GraphDependency(<|$)', '^babylon::anyflow::GraphVertex(<|$)'],
+    'condition': ['^babylon::anyflow::GraphDependency(<|$)'],
+    'data_num': ['^babylon::anyflow::GraphData(<|$)'],
+    'declare_essential': ['^babylon::anyflow::GraphDependency(<|$)'],
+    'declare_mutable': ['^babylon::anyflow::GraphDependency(<|$)'],
+    'declare_trivial': ['^babylon::anyflow::GraphVertex(<|$)'],
+    'depend_data_add': ['^babylon::anyflow::ClosureContext(<|$)'],
+    'depend_data_sub': ['^babylon::anyflow::ClosureContext(<|$)'],
+    'depend_vertex_add': ['^babylon::anyflow::ClosureContext(<|$)'],
+    'depend_vertex_sub': ['^babylon::anyflow::ClosureContext(<|$)'],
+    'executer': ['^babylon::anyflow::GraphData(<|$)'],
+    'flush_emits': ['^babylon::anyflow::GraphVertex(<|$)'],
+    'mark_finished': ['^babylon::anyflow::ClosureContext(<|$)'],
+    'notify_finish': ['^babylon::anyflow::ClosureContextImplement(<|$)'],
+    'notify_flush': ['^babylon::anyflow::ClosureContextImplement(<|$)'],
+    'producer': ['^babylon::anyflow::GraphData(<|$)'],
+    'recursive_activate': ['^babylon::anyflow::GraphData(<|$)'],
+    'set_builder': ['^babylon::anyflow::GraphVertex(<|$)'],
+    'set_graph': ['^babylon::anyflow::GraphData(<|$)', '^babylon::anyflow::GraphVertex(<|$)', '^babylon::anyflow::GraphVertexBuilder(<|$)'],
+    'set_name': ['^babylon::anyflow::GraphBuilder(<|$)', '^babylon::anyflow::GraphData(<|$)', '^babylon::anyflow::GraphDependencyBuilder(<|$)', '^babylon::anyflow::GraphEmitBuilder(<|$)', '^babylon::anyflow::GraphVertexBuilder(<|$)'],
+    'set_processor': ['^babylon::anyflow::GraphVertex(<|$)'],
+    'source': ['^babylon::anyflow::GraphDependency(<|$)'],
+    'target': ['^babylon::anyflow::GraphDependency(<|$)'],
+    'vertex_num': ['^babylon::anyflow::GraphData(<|$)'],
+}
